@@ -104,3 +104,32 @@ func VerifC10Reverse() {
 	}
 	vReach("end")
 }
+
+// the broker's own id allocation never lands on an id under which the client has an inbound QoS 2
+// exchange open (with one shared table that would replace the client's record)
+func VerifC10AllocVsInbound() {
+	M := vParam("M", 3)
+	s, _ := vNewServer(nil)
+	s.Options.Capabilities.maximumPacketID = uint32(M)
+	cl, _ := vNewClient(s, "c1", 5)
+	sub := packets.Subscription{Filter: "a", Qos: 1}
+	s.Topics.Subscribe("c1", sub)
+	cl.State.Subscriptions.Add("a", sub)
+	r := uint16(1 + vChoose(M))
+	_ = s.processPacket(cl, packets.Packet{ProtocolVersion: 5, FixedHeader: packets.FixedHeader{Type: packets.Publish, Qos: 2}, PacketID: r, TopicName: "b", Payload: []byte{2}})
+	rec, had := cl.State.Inflight.Get(r)
+	vAssert("inbound-exchange-open", had && rec.FixedHeader.Type == packets.Pubrec)
+	cl.State.packetID = uint32(vChoose(M + 1))
+	s.publishToSubscribers(packets.Packet{FixedHeader: packets.FixedHeader{Type: packets.Publish, Qos: 1}, TopicName: "a", Payload: []byte{1}, Origin: "other"})
+	rec2, still := cl.State.Inflight.Get(r)
+	vAssert("outbound-allocation-leaves-inbound-exchange-intact", still && rec2.FixedHeader.Type == packets.Pubrec)
+	n := 0
+	for _, tk := range cl.State.Inflight.GetAll(false) {
+		if tk.FixedHeader.Type == packets.Publish {
+			n++
+			vAssert("outbound-message-uses-a-different-id", tk.PacketID != r)
+		}
+	}
+	vAssert("outbound-message-recorded", n == 1)
+	vReach("end")
+}
